@@ -8,7 +8,7 @@
    cross-radix and big-accumulator routines).  The magnitude hypotheses are the backend's exact-product domain:
    S bounds the 1-norm of every secret polynomial, E the error, M the plaintext digits. *)
 From PV Require Import Base.MachineInt Model.Znx Model.Limbs Model.Flat Model.DftAbs Model.C08Oracle Model.EncModel
-  Proofs.EncValue Proofs.EncLists Proofs.EncSampler Proofs.C01Sk Proofs.C01Glwe Proofs.C01Lwe.
+  Proofs.EncValue Proofs.EncLists Proofs.EncSampler Proofs.C01Sk Proofs.C01Glwe Proofs.C01Lwe Proofs.C01Pk.
 Open Scope Z_scope.
 
 (* decrypt(encrypt m) = m + e * 2^-(limb+1)b + rho on the torus, |rho| <= one unit of the decrypted plaintext's last limb,
@@ -86,6 +86,48 @@ Theorem C01_lwe_dot_bound : forall B : Z, 0 <= B -> forall a s : list Z, Forall 
 Proof. exact lwe_dot_bound. Qed.
 Print Assumptions C01_lwe_dot_bound.
 
+(* public-key encryption: pk = secret-key encryption of zero (noise precision nkp), ct_i = normalise(u*pk_i + e_i (+ m on column 0)).
+   decrypt = m + [u*e_pk placed at nkp] + [e_0 + sum_i s_i*e_i placed at nk] + rho, |rho| <= one unit of the decrypted plaintext's
+   last limb; the mask terms cancel by commutativity and associativity of the negacyclic product (C07_pmul_comm, C07_pmul_assoc).
+   U bounds |u|_1, Sn the |s_i|_1; the ciphertext has as many limbs as the public key (size). *)
+Theorem C01_pk_roundtrip :
+  forall (wb b pb R : Z) (n size psize rank : nat) (nk nkp Sn U E Ep M : Z),
+  normalize_value_ok (fun rb ab => normalize 64 rb ab 0) (2 ^ 62) R ->
+  normalize_value_ok (bnorm wb) (2 ^ (wb - 2)) R ->
+  2 <= wb -> 1 <= b <= R -> 1 <= pb <= R -> 0 <= Sn -> 0 <= U ->
+  forall (pt : ccol) (sk : list poly) (us : nat -> Z) (epk u : poly) (es : list poly) (pk ct : list ccol) (d : ccol),
+  length sk = rank -> length es = S rank ->
+  Forall (fun s => length s = n /\ norm1 s <= Sn) sk -> length u = n -> norm1 u <= U ->
+  length epk = n -> Forall (fun e => length e = n) es ->
+  (forall k, (k < n)%nat -> Z.abs (nthZ epk k) <= Ep) ->
+  (forall i k, (k < n)%nat -> Z.abs (nthZ (nth i es []) k) <= E) ->
+  (forall k, (k < n)%nat -> bnd M (coef pt k)) -> 0 <= M ->
+  zn rank * 2 ^ (b - 1) + Ep <= 2 ^ 62 ->
+  Sn * 2 ^ (b - 1) <= 2 ^ (wb - 2) ->
+  U * 2 ^ (b - 1) + E + M <= 2 ^ (wb - 2) ->
+  zn rank * (Sn * 2 ^ (b - 1)) + 2 ^ (b - 1) <= 2 ^ (wb - 2) ->
+  enc_sk wb b n size rank nkp None sk us epk = Some pk ->
+  enc_pk wb b n size size nk (Some pt) u pk es = Some ct ->
+  dec_glwe wb b pb n size psize sk ct = Some d ->
+  forall k, (k < n)%nat -> length (coef d k) = psize /\
+    forall P, zn size * b <= P -> zn psize * pb <= P -> 1 <= P ->
+    tor_abs P (val_scaled P pb (coef d k) - val_scaled P b (firstn size (coef pt k)) - pk_error b rank nk nkp P sk u epk es k)
+      <= 2 ^ (P - zn psize * pb).
+Proof. exact pk_roundtrip_value. Qed.
+Print Assumptions C01_pk_roundtrip.
+
+(* the error of a public-key ciphertext is at most bound * (|u|_1 + 1 + sum_i |s_i|_1) (each term at its precision) *)
+Theorem C01_pk_error_bound :
+  forall (wb b : Z) (n rank : nat) (nk nkp : Z), 2 <= wb -> forall Sn U E Ep : Z, 0 <= U ->
+  forall (P : Z) (sk : list poly) (u epk : poly) (es : list poly) (k : nat),
+  length sk = rank -> Forall (fun s => length s = n /\ norm1 s <= Sn) sk -> norm1 u <= U ->
+  Forall (fun x => Z.abs x <= Ep) epk -> 0 <= Ep -> 0 <= E ->
+  (forall i, Forall (fun x => Z.abs x <= E) (nth i es [])) ->
+  Z.abs (pk_error b rank nk nkp P sk u epk es k)
+  <= U * Ep * wt P b (target_limb nkp b) + (E + zn rank * (Sn * E)) * wt P b (target_limb nk b).
+Proof. exact pk_error_bound. Qed.
+Print Assumptions C01_pk_error_bound.
+
 (* `prods_at` really is the product of the clear secret with the mask, limb by limb: (s_i * a_i)_k *)
 Theorem C01_phase_products : forall (s : poly) (n size : nat) (c : ccol) (k : nat), (k < n)%nat ->
   coef (svp s n size c) k = map (fun j => nthZ (pmul s (limb_poly c j)) k) (seq 0 size).
@@ -134,6 +176,30 @@ Example C01_roundtrip_ex :
                                                         - nthZ e k * wt 20 5 (target_limb 7 5)) <=? 2 ^ (20 - 10)) [0; 1; 2; 3]%nat = true
                | None => False
                end
+  | None => False
+  end.
+Proof. vm_compute. reflexivity. Qed.
+
+(* a complete public-key instance of the model (n = 4, rank 1, base2k 6, 2 limbs): the decrypted plaintext is the message plus
+   pk_error within one unit *)
+Example C01_pk_ex :
+  let us := fun i => nthZ [123456789; 987654321; 55555; 4242424242; 77; 1000003; 31337; 65537] i in
+  let pt := [[3; -2]; [0; 1]; [-16; 15]; [7; 7]] in
+  let sk := [[1; 0; -1; 1]] in
+  let u := [0; 1; 1; -1] in
+  let epk := [1; -2; 0; 1] in
+  let es := [[2; 0; -1; 1]; [0; 3; -2; 1]] in
+  match enc_sk 64 6 4 2 1 9 None sk us epk with
+  | Some pk =>
+      match enc_pk 64 6 4 2 2 10 (Some pt) u pk es with
+      | Some ct =>
+          match dec_glwe 64 6 6 4 2 2 sk ct with
+          | Some d => forallb (fun k => tor_abs 24 (val_scaled 24 6 (coef d k) - val_scaled 24 6 (coef pt k)
+                                                      - pk_error 6 1 10 9 24 sk u epk es k) <=? 2 ^ (24 - 12)) [0; 1; 2; 3]%nat = true
+          | None => False
+          end
+      | None => False
+      end
   | None => False
   end.
 Proof. vm_compute. reflexivity. Qed.
